@@ -85,11 +85,25 @@ Definition check (c : case) : bool :=
       run_steps (table_lookup tab) {| k_spki := spki; k_kind := kind |} init_state steps
   end.
 
-Fixpoint explain_steps (H : bytes -> bytes) (cfg : config) (st : state) (steps : list hstep) : list (option outcome) :=
+(* what the model computes, per step, in a form short enough for replay files:
+   (status, SCT timestamp, AlreadyExists, first 8 bytes of LeafIdentityHash as a number,
+    timestamp inside the queued LeafValue, |LeafValue|, |ExtraData|, |signed bytes|) *)
+Definition summary (out : outcome) : Z * N * bool * N * N * N * N * N :=
+  match out with
+  | OPanic => ((-1)%Z, 0, false, 0, 0, 0, 0, 0)
+  | Refused st => (st, 0, false, 0, 0, 0, 0, 0)
+  | Issued r => (200%Z, i_ts r, i_dup r, be_dec (firstn 8 (l_id (i_queued r))),
+                 be_dec (firstn 8 (skipn 2 (l_value (i_queued r)))),
+                 N.of_nat (length (l_value (i_queued r))), N.of_nat (length (l_extra (i_queued r))),
+                 N.of_nat (length (i_signed r)))
+  end.
+
+Fixpoint explain_steps (H : bytes -> bytes) (cfg : config) (st : state) (steps : list hstep)
+  : list (option (Z * N * bool * N * N * N * N * N)) :=
   match steps with
   | [] => []
   | Valid s o :: r =>
-      let '(st', out) := model_step H cfg st s o in Some out :: explain_steps H cfg st' r
+      let '(st', out) := model_step H cfg st s o in Some (summary out) :: explain_steps H cfg st' r
   | Invalid _ _ _ :: r => None :: explain_steps H cfg st r
   end.
 
